@@ -59,6 +59,9 @@ pub enum Op {
     /// ("resolved") before the next op that moves packets
     HalfOpen { id: u32, host: usize, to: SocketAddr },
     Close { sock: u32, server_first: bool },
+    /// the application drops only this end of an established connection;
+    /// the peer keeps its end open (idle pooled connection)
+    CloseOne { sock: u32 },
 }
 
 impl Op {
@@ -71,6 +74,7 @@ impl Op {
             Op::TcpConnect { id, host, to } => json!({"op":"tconn","id":id,"host":host,"to":to.to_string()}),
             Op::HalfOpen { id, host, to } => json!({"op":"thalf","id":id,"host":host,"to":to.to_string()}),
             Op::Close { sock, server_first } => json!({"op":"close","sock":sock,"server_first":server_first}),
+            Op::CloseOne { sock } => json!({"op":"closeone","sock":sock}),
         }
     }
     pub fn from_json(v: &Value) -> Option<Op> {
@@ -97,6 +101,7 @@ impl Op {
                 host: u("host")? as usize,
                 to: v["to"].as_str()?.parse().ok()?,
             },
+            "closeone" => Op::CloseOne { sock: u("sock")? as u32 },
             "close" => Op::Close {
                 sock: u("sock")? as u32,
                 server_first: v["server_first"].as_bool().unwrap_or(false),
@@ -202,6 +207,10 @@ impl History {
                 Op::Close { sock, .. } => {
                     let l = labels.get(sock).cloned().unwrap_or("s?".into());
                     out.push(format!("close({l})"));
+                }
+                Op::CloseOne { sock } => {
+                    let l = labels.get(&(sock % 100_000)).cloned().unwrap_or("s?".into());
+                    out.push(format!("closeone({l}{})", if *sock >= 100_000 { "'" } else { "" }));
                 }
             }
         }
